@@ -281,7 +281,8 @@ def r4(ctx):
             w = v[3][0] if v[0] == "adt" else v
             if T.is_const(w):
                 val = w[1]
-        dash_used = any(DASH in str(c[0]) for c in lf.cond)
+        # '-' consumed: through parse_dash, or by a slice pattern `[b'-', rest @ ..]` written in place
+        dash_used = any(DASH in str(c[0]) for c in lf.cond) or any(c[0][0] == "cindex" and c[1] == 45 for c in lf.cond)
         rows[tuple(sorted(flags.items()))] = (val, dash_used)
     ctx.floor("castling subsets in the reader", len(rows), 16)
     letter_bit = {}
